@@ -41,7 +41,12 @@ func (FixedWindow) New(cfg Config) fiber.Handler {
 		mux.Lock()
 
 		// Get entry from pool and release when finished
-		e := manager.get(key)
+		e, err := manager.get(key)
+		if err != nil {
+			// the counter cannot be read: the request is not admitted
+			mux.Unlock()
+			return err
+		}
 
 		// Get timestamp
 		ts := uint64(utils.Timestamp())
@@ -65,10 +70,15 @@ func (FixedWindow) New(cfg Config) fiber.Handler {
 		remaining := maxRequests - e.currHits
 
 		// Update storage
-		manager.set(key, e, cfg.Expiration)
+		err = manager.set(key, e, cfg.Expiration)
 
 		// Unlock entry
 		mux.Unlock()
+
+		// the hit could not be recorded: the request is not admitted
+		if err != nil {
+			return err
+		}
 
 		// Check if hits exceed the max
 		if remaining < 0 {
@@ -82,22 +92,29 @@ func (FixedWindow) New(cfg Config) fiber.Handler {
 
 		// Continue stack for reaching c.Response().StatusCode()
 		// Store err for returning
-		err := c.Next()
+		err = c.Next()
 
 		// Check for SkipFailedRequests and SkipSuccessfulRequests
 		if (cfg.SkipSuccessfulRequests && c.Response().StatusCode() < fiber.StatusBadRequest) ||
 			(cfg.SkipFailedRequests && c.Response().StatusCode() >= fiber.StatusBadRequest) {
 			// Lock entry
 			mux.Lock()
-			e = manager.get(key)
+			e, getErr := manager.get(key)
+			if getErr != nil {
+				mux.Unlock()
+				return getErr
+			}
 			// the entry may have expired while the handler ran: never count below zero
 			if e.currHits > 0 {
 				e.currHits--
 			}
 			remaining++
-			manager.set(key, e, cfg.Expiration)
+			setErr := manager.set(key, e, cfg.Expiration)
 			// Unlock entry
 			mux.Unlock()
+			if setErr != nil {
+				return setErr
+			}
 		}
 
 		// We can continue, update RateLimit headers
